@@ -32,6 +32,8 @@ type Faulty struct {
 	failCas  map[int]bool
 	events   []Event
 
+	CasDelay time.Duration // every CasByVersion takes this long to reach the storage (a slow, but answering, storage)
+
 	holdArmed bool
 	holdAfter bool
 	Held      chan struct{} // closed when the held call is parked
@@ -111,6 +113,9 @@ func (f *Faulty) CasByVersion(ctx context.Context, r kvs.Record) (kvs.Record, er
 	if hold && !after {
 		close(held)
 		<-resume
+	}
+	if f.CasDelay > 0 {
+		time.Sleep(f.CasDelay)
 	}
 	res, err := f.Inner.CasByVersion(ctx, r)
 	f.log(Event{Op: "cas", Key: r.Key, Ver: r.Version, Applied: true, Err: err})
